@@ -87,7 +87,7 @@ fn drain(c: &Case) -> Result<Vec<(usize, String)>, String> {
 impl Prop for C07 {
     type Case = Case;
     const ID: &'static str = "C07";
-    const RULE: &'static str = "1-6 in-memory sources with lengths 0..=6 (a long profile up to 200; zero only for non-weighted strategies; optionally every k-th item an Err item) x {sequential, interleaved, weighted} x seed; oracle: termination within total+2 calls (step bound; watchdog for calls that never return), exact sequence model for sequential and round-robin, multiset + per-source order + source tag + seed determinism for weighted. Non-trivial: >= 2 sources of unequal length, or an empty source, or a single source with the interleaved strategy. Distinct = distinct serialised case.";
+    const RULE: &'static str = "1-6 in-memory sources (occasionally up to 14) with lengths 0..=6 (a long profile up to 200; zero only for non-weighted strategies; optionally every k-th item an Err item) x {sequential, interleaved, weighted} x seed; oracle: termination within total+2 calls (step bound; watchdog for calls that never return), exact sequence model for sequential and round-robin, multiset + per-source order + source tag + seed determinism for weighted. Non-trivial: >= 2 sources of unequal length, or an empty source, or a single source with the interleaved strategy. Distinct = distinct serialised case.";
     const CLAIMS_TERMINATION: bool = true;
     const HANG_SECS: u64 = 20;
     const ESSENTIAL: &'static [&'static str] = &["sequential", "interleaved", "weighted", "single_source", "empty_source", "unequal", "interleaved_tail"];
@@ -104,6 +104,7 @@ impl Prop for C07 {
             prop_oneof![
                 10 => proptest::collection::vec(0usize..=6, 1..=6),
                 1 => proptest::collection::vec(0usize..=200, 1..=4),
+                1 => proptest::collection::vec(0usize..=5, 7..=14),
             ],
             0u8..3,
             prop_oneof![0u64..8, any::<u64>()],
